@@ -19,7 +19,7 @@ WFInit ==
     /\ sends = [i \in DOMAIN b.sends |->
                   [src |-> b.sends[i].rank, dst |-> b.sends[i].dst, tag |-> b.sends[i].sym,
                    deps |-> {j + 1 : j \in {b.sends[i].deps[x] : x \in DOMAIN b.sends[i].deps}},
-                   kind |-> "comp", share |-> 0, on |-> TRUE]]
+                   kind |-> "comp", share |-> 0, on |-> TRUE, inside |-> 0, par |-> FALSE]]
     /\ recvs = [j \in DOMAIN b.recvs |->
                   [dst |-> b.recvs[j].rank, src |-> b.recvs[j].src, tag |-> b.recvs[j].sym,
                    \* every extracted end is a distinct node of its DAG
